@@ -1,3 +1,3 @@
-CONSTANTS Want = {"C37_EndpointAccepts", "C37_NoExecBits", "C37_Override", "C37_TextRoundTrip", "C37_DomainCovered", "C37_TraceAccepted", "Conforms"}
+CONSTANTS Want = {"C37_EndpointAccepts", "C37_NoExecBits", "C37_Override", "C37_MergeFresh", "C37_TextRoundTrip", "C37_DomainCovered", "C37_TraceAccepted", "Conforms"}
 SPECIFICATION TSpec
 CHECK_DEADLOCK FALSE
